@@ -85,11 +85,25 @@ Definition run_utils (args : list Z) : list Z :=
 
 (* family 4: v2 priority.New acceptance  [divider; H; n; ps..] -> [code]
    0 accepted, 2 ErrHandlersQuantityZero, 3 ErrInputEmpty, 4 ErrHandlersQuantityTooSmall, 5 ErrDividerBad, 6 overflow *)
+(* a custom divider that obeys the sum rule but not the order of the shares: the base division, then the whole increment of the
+   priority at position `from` of the list it was given is moved to the priority at position `to` (positions modulo the length) *)
+Definition moved (base : Divider) (from to : nat) : Divider := fun ps dividend d =>
+  let d1 := base ps dividend d in
+  match nth_error ps (Nat.modulo from (length ps)), nth_error ps (Nat.modulo to (length ps)) with
+  | Some pf, Some pt => if N.eqb pf pt then d1 else
+      let inc := (get d1 pf - get d pf)%N in add (set d1 pf (get d pf)) pt inc
+  | _, _ => d1
+  end.
+(* [divider; H; n; ps..] or [divider; H; n; ps..; from; to] (the moved divider) *)
 Definition run_new (args : list Z) : list Z :=
   match args with
   | kind :: h :: r =>
-      let '(ps0, _) := take_list r in
-      run_new_code (divider_of kind) (zs_to_ns ps0) (Z.to_N h)
+      let '(ps0, r1) := take_list r in
+      let dv := match r1 with
+                | [from; to] => moved (divider_of kind) (Z.to_nat from) (Z.to_nat to)
+                | _ => divider_of kind
+                end in
+      run_new_code dv (zs_to_ns ps0) (Z.to_N h)
   | _ => [-1]
   end.
 
